@@ -360,6 +360,11 @@ def run(ctx):
                     if N.is_const(x) and isinstance(x[2], str):
                         refs.extend((i, N.const(w)) for w in _re.findall(r"[A-Za-z_][A-Za-z_0-9]*", x[2].replace("%s", " ").replace("%d", " ")))
         ok = bool(refs) and all(r in ids[:i] for i, r in refs)
+        opaque = [N.show(v)[:80] for d in ds for k, v in d.items() if k == "**" and v[0] == "call" and v[1][0] == "free" and v[1][1] in M.functions]
+        if not refs and opaque:
+            # the entry that carries the reference is assembled by a package-level helper the rule cannot see through: undecided, not a violation
+            ctx.error("C19.R3 undecided: %s builds a schema entry through the helper %s; the reference rule needs the dict it returns" % (macro or where, opaque[0]))
+            continue
         ctx.ob("C19.R3", fi, ok, "%s: intra-list references name an id emitted earlier in the same list (ids %s, refs %s)" % (macro or where, [N.show(i) for i in ids], [N.show(r) for _, r in refs]), key="%s refs" % (macro or where))
     # Prefixed: the payload's size is the length field, minus the length field's own size exactly when includelength is set (what _parse does)
     fi, paths = own_method_paths(ctx, "Prefixed", "_emitseq")
